@@ -171,6 +171,21 @@ type vfConn struct {
 	driver.Conn
 	label string
 	dead  bool
+	stmts map[*vfStmt]bool // prepared and not yet closed (finalised when the connection "dies")
+}
+
+// die: the process is gone as far as this connection is concerned.  Its open
+// statements are finalised first: sqlite keeps a closed connection (and its file
+// descriptor) alive for as long as a statement of it is not finalised, and after
+// the close the driver refuses to finalise them - thousands of crash cases would
+// exhaust the descriptor limit.
+func (c *vfConn) die() {
+	c.dead = true
+	for st := range c.stmts {
+		st.Stmt.Close()
+	}
+	c.stmts = nil
+	c.Conn.Close()
 }
 
 func (c *vfConn) fault(op string) error {
@@ -178,8 +193,7 @@ func (c *vfConn) fault(op string) error {
 	crashed := vfCrashed
 	vfFaultMu.Unlock()
 	if crashed && !c.dead {
-		c.dead = true
-		c.Conn.Close() // uncommitted work of this connection is lost
+		c.die() // uncommitted work of this connection is lost
 	}
 	if c.dead {
 		return driver.ErrBadConn
@@ -191,8 +205,7 @@ func (c *vfConn) fault(op string) error {
 		vfFaultMu.Unlock()
 		// the process "dies" here as far as this connection is concerned:
 		// whatever was not committed is lost
-		c.dead = true
-		c.Conn.Close()
+		c.die()
 		return err
 	}
 	return err
@@ -206,7 +219,12 @@ func (c *vfConn) Prepare(q string) (driver.Stmt, error) {
 	if err != nil {
 		return nil, err
 	}
-	return &vfStmt{Stmt: s, c: c, q: q}, nil
+	st := &vfStmt{Stmt: s, c: c, q: q}
+	if c.stmts == nil {
+		c.stmts = map[*vfStmt]bool{}
+	}
+	c.stmts[st] = true
+	return st, nil
 }
 
 func (c *vfConn) Begin() (driver.Tx, error) {
@@ -277,6 +295,7 @@ func (s *vfStmt) Close() error {
 	if s.c.dead {
 		return nil
 	}
+	delete(s.c.stmts, s)
 	return s.Stmt.Close()
 }
 
